@@ -283,14 +283,20 @@ func (g *gen) write() {
 			g.emit("O", t, hx(k))
 		}
 	}
+	if g.r.Intn(2) == 0 {
+		g.emit("Q")
+	}
 }
 
+// observeAll: every key as every type, then the multi-key / multi-member reads (Q: EXISTS k1 k2 k3, MGET,
+// HMGET, SISMEMBER, ZSCORE over the key pool and one key that is never written).
 func (g *gen) observeAll() {
 	for _, t := range types {
 		for _, k := range keyPool {
 			g.emit("O", t, hx(k))
 		}
 	}
+	g.emit("Q")
 }
 
 func (g *gen) sequence(seq int, maxLen int, engine string) {
@@ -416,6 +422,7 @@ func (g *gen) grid(engines []string) {
 			e := (base/nsPerSec + 10) * nsPerSec
 			w(e+off, c.name, c.args...)
 			g.emit("O", c.t, hx("t:a"))
+			g.emit("Q")
 			if c.name == "mset" {
 				g.emit("O", "k", hx("t:b"))
 			}
@@ -477,6 +484,36 @@ func (g *gen) grid(engines []string) {
 		g.emit("O", "l", hx("t:a"))
 		w(base+6, "lpop", "t:a")
 		g.emit("O", "l", hx("t:a"))
+	}
+	// multi-key reads over live, expired (not yet compacted), cleared and absent keys: an expired key counts
+	// exactly like an absent one in EXISTS k1 k2 ..., MGET, HMGET, SISMEMBER, ZSCORE
+	for ei := range engines {
+		for vi, which := range []string{"a", "b", "ab", "none"} {
+			g.seq, g.step = 1000000+n, 0
+			n++
+			g.emit("NEW", "compact", engines[(ei+vi)%len(engines)])
+			for _, k := range []string{"t:a", "t:b"} {
+				w(base, "set", k, "v"+k)
+				w(base, "hmset", k, "f", "1", "g", "", "m1", "x")
+				w(base, "sadd", k, "f", "m1")
+				w(base, "zadd", k, "1", "f", "-2", "g")
+			}
+			g.emit("Q")
+			for _, k := range []string{"t:a", "t:b"} {
+				if strings.Contains(which, k[2:]) {
+					w(base+1, "expire", k, "10")
+					w(base+1, "hexpire", k, "10")
+					w(base+1, "sexpire", k, "10")
+					w(base+1, "zexpire", k, "10")
+				}
+			}
+			g.emit("Q")
+			g.policy = "compact"
+			g.observeAll()
+			g.emit("C", "100")
+			g.emit("X")
+			g.emit("Q")
+		}
 	}
 	// compaction-filter probes on both sides of the lazy threshold
 	for _, eng := range engines {
